@@ -394,6 +394,42 @@ Section MapTemplate.
       + intros c Hc Hname Vc. apply kvtail_denote; assumption.
     - rewrite (valid_seq _ _ _ _ P_result) in V. discriminate.
   Qed.
+  Lemma empty_map_l : forall E op c b1 b2 fc fch,
+    tmpl_get (e_tmpl E) result = Some (TM T) ->
+    mo_open o = Some op -> mo_close o = Some c -> rname b1 = op -> rname b2 = c ->
+    valid P (RNode result [b1; b2]) = true /\
+    cl E (RNode result [b1; b2]) (MClean fc fch) = Ok (OTe (mkTe result true (CDict [])) fch).
+  Proof.
+    intros E op c b1 b2 fc fch HT Eo Ec H1 H2.
+    assert (Bop : In op (mbr o)) by (unfold mbr; rewrite Eo; simpl; tauto).
+    assert (Bc : In c (mbr o)) by (unfold mbr; rewrite Eo, Ec; simpl; tauto).
+    assert (V : valid P (RNode result [b1; b2]) = true).
+    { rewrite (valid_node _ _ _ _ P_result). cbn [is_nil negb map forallb].
+      rewrite (valid_ext P b1) by (rewrite H1; apply P_punct; now apply br_punct).
+      rewrite (valid_ext P b2) by (rewrite H2; apply P_punct; now apply br_punct).
+      rewrite syms_existsb; [reflexivity|].
+      rewrite sigs_eq. apply sig_prods_in. unfold mp_of. rewrite Eo, Ec, H1, H2.
+      destruct (mo_opt o); simpl; tauto. }
+    split; [exact V|].
+    rewrite (map_denote_l E (RNode result [b1; b2]) fc fch HT eq_refl V). cbn [is_rnull]. rewrite andb_false_r.
+    unfold mcontent. fold T. fold P. rewrite (frontier_node _ _ _ _ P_result).
+    rewrite br_children_content; [reflexivity|].
+    constructor; [now rewrite H1|constructor; [now rewrite H2|constructor]].
+  Qed.
+
+  Lemma absent_optional_map_l : forall E fc fch,
+    tmpl_get (e_tmpl E) result = Some (TM T) -> mo_opt o = true ->
+    valid P (RNull result) = true /\
+    cl E (RNull result) (MClean fc fch) = Ok (OTe (mkTe result true CNone) fch).
+  Proof.
+    intros E fc fch HT Hopt.
+    assert (V : valid P (RNull result) = true).
+    { rewrite (valid_null _ _ _ P_result). apply syms_existsb.
+      rewrite sigs_eq. apply sig_prods_in. unfold mp_of. rewrite Hopt.
+      apply in_map_iff. exists []. split; [reflexivity|]. apply in_or_app. right. now left. }
+    split; [exact V|].
+    rewrite (map_denote_l E (RNull result) fc fch HT eq_refl V), Hopt. reflexivity.
+  Qed.
 End MapTemplate.
 
 (* ------------------------------------------------------------------ *)
